@@ -85,7 +85,7 @@ def tyLE (cur : Ty) : LE → Ty
   | .bin _ a b => (tyLE cur a).join (tyLE cur b)
   | .cmp _ _ _ => .bool
   | .neg a => tyLE cur a
-  | .not a => tyLE cur a
+  | .not _ => .bool                 -- `not x` is a bool whatever the type of x (visit_UnaryOp, fix ea7911a)
   | .bop _ _ _ => .bool
   | .ite _ _ _ => .double
 
